@@ -2,15 +2,23 @@
 (* C13 - the greedy policies (schedulers/edf_scheduler.py, fifo_scheduler.py,  *)
 (* lsf_scheduler.py) as a function from one *instance* to one *answer*.        *)
 (*                                                                            *)
-(* instance  [now, tasks, pools]                                              *)
+(* instance  [now, preemptive, tasks, pools]                                  *)
 (*   tasks : sequence, in OFFER order (what Workload.get_schedulable_tasks     *)
-(*           returns: RELEASED tasks with release <= now, task graphs in dict  *)
-(*           order, so the tasks of one graph are contiguous), of              *)
-(*           [deadline, release, graph, strats] with                          *)
+(*           returns: RELEASED tasks with release <= now and PREEMPTED tasks,  *)
+(*           task graphs in dict order, so the tasks of one graph are          *)
+(*           contiguous; for a preemptive policy followed by the tasks that    *)
+(*           are RUNNING on the pools, in pool order), of                      *)
+(*           [deadline, release, graph, strats, ran] with                     *)
 (*           strats : sequence of [dem, rt]; dem is a vector of quantities,    *)
 (*           one per resource name (0 = not requested), rt the runtime;        *)
 (*           graph : a number standing for the task-graph name (the harness    *)
-(*           names graphs so that string order = numeric order)               *)
+(*           names graphs so that string order = numeric order);               *)
+(*           ran = [s, done, on] : the task was started with strategy s        *)
+(*           (0 = never started), has executed for `done`, and is still        *)
+(*           RUNNING on pool `on` (0 = it is RELEASED, or was PREEMPTED)       *)
+(*   preemptive : the policy was built with preemptive = True: it plans on a   *)
+(*           deepcopy of the pools (every allocation undone) and is also       *)
+(*           offered the running tasks                                        *)
 (*   pools : sequence of [cap, av]; cap/av : sequence (one per worker, dict    *)
 (*           order) of vectors; av = what is free now (the pool is partially   *)
 (*           occupied).  The gating bound has exactly one worker per pool.    *)
@@ -35,9 +43,10 @@ EXTENDS Integers, Sequences, FiniteSets, TLC, LedgerOps
 CONSTANTS Kinds,        \* subset of {"EDF", "FIFO", "LSF"}
           Now,          \* the scheduler's invocation time in the bound
           MaxTasks,     \* 1..MaxTasks tasks per instance
-          Shapes,       \* sequence of task shapes [deadline, release, graph, strats]
-          PoolSeqs,     \* sequence of pool sequences
-          NShapes, NPools, GraphOf,   \* Len(Shapes), Len(PoolSeqs), graph of each shape (see BoundOK)
+          Preemptive,   \* BOOLEAN: the instances of the bound are given to a preemptive policy
+          Shapes,       \* sequence of task shapes [deadline, release, graph, strats, ran]
+          PoolSeqs,     \* sequence of pool sequences (Preemptive: av = cap, see PoolsFor)
+          NShapes, NPools, GraphOf, OnOf,   \* Len(Shapes), Len(PoolSeqs), graph / ran.on of each shape (see BoundOK)
           FirstIx,      \* the part of the bound a run enumerates: shape indices of the first task
           Records,      \* sequence of call records (<<>> in enumeration runs)
           NRecords      \* Len(Records)
@@ -89,6 +98,14 @@ PoolIds(I)  == 1..Len(I.pools)
 NRes(I)     == Len(I.pools[1].av[1])
 Dem(I, t, s) == I.tasks[t].strats[s].dem
 
+\* ons[i] = pool on which the i-th offered task is running (0: it is not)
+RunningLast(ons) == \A i, j \in 1..Len(ons) : (i < j /\ ons[i] > 0) => ons[j] >= ons[i]
+
+\* what the running tasks of `ts` hold on pool p
+RunningDem(ts, p, n) ==
+    LET S == {t \in 1..Len(ts) : ts[t].ran.on = p}
+    IN  VSum(S, [t \in S |-> ts[t].strats[ts[t].ran.s].dem], n)
+
 WellFormedInst(I) ==
     /\ Len(I.tasks) >= 1 /\ Len(I.pools) >= 1
     /\ \A p \in PoolIds(I) :
@@ -102,19 +119,38 @@ WellFormedInst(I) ==
           /\ \A s \in 1..Len(I.tasks[t].strats) :
                 /\ Len(Dem(I, t, s)) = NRes(I) /\ I.tasks[t].strats[s].rt >= 1
                 /\ \A k \in 1..NRes(I) : Dem(I, t, s)[k] >= 0
-    \* tasks of one graph are offered together
+          /\ LET r == I.tasks[t].ran
+             IN  IF r.s = 0 THEN r.done = 0 /\ r.on = 0
+                 ELSE /\ r.s \in 1..Len(I.tasks[t].strats)
+                      /\ 0 <= r.done /\ r.done < I.tasks[t].strats[r.s].rt    \* not finished
+                      /\ I.tasks[t].release + r.done <= I.now
+                      \* a RUNNING task is only offered to a preemptive policy
+                      /\ r.on # 0 => (I.preemptive /\ r.on \in PoolIds(I) /\ Len(I.pools[r.on].av) = 1)
+    \* tasks of one graph are offered together; the running ones come last, in pool order
     /\ \A i, j, k \in TaskIds(I) :
-          (i < j /\ j < k /\ I.tasks[i].graph = I.tasks[k].graph) => I.tasks[j].graph = I.tasks[i].graph
+          (/\ i < j /\ j < k /\ I.tasks[i].graph = I.tasks[k].graph
+           /\ I.tasks[i].ran.on = 0 /\ I.tasks[j].ran.on = 0 /\ I.tasks[k].ran.on = 0)
+          => I.tasks[j].graph = I.tasks[i].graph
+    /\ RunningLast([t \in TaskIds(I) |-> I.tasks[t].ran.on])
+    \* a preemptive instance has no occupants other than its running tasks, and one task
+    \* graph (get_schedulable_tasks appends the placed tasks once per task graph)
+    /\ I.preemptive =>
+          /\ \A t, u \in TaskIds(I) : I.tasks[t].graph = I.tasks[u].graph
+          /\ \A p \in PoolIds(I) : Len(I.pools[p].av) = 1 /\ I.pools[p].av[1] = VSub(I.pools[p].cap[1], RunningDem(I.tasks, p, NRes(I)))
 
 SingleWorkerPools(I) == \A p \in PoolIds(I) : Len(I.pools[p].av) = 1
 
 -----------------------------------------------------------------------------
 (* the policy keys; smaller = more urgent.  Python's sorted() is stable, so  *)
 (* equal keys keep the offer order.                                           *)
-\* Task.remaining_time of a RELEASED task: runtime of its slowest strategy
+\* Task.remaining_time: a task that never started (VIRTUAL / RELEASED) is budgeted
+\* with the runtime of its slowest strategy; once scheduled and started it is the
+\* runtime of the strategy it was placed with minus what it has executed.
 Remaining(task) ==
-    LET R == {task.strats[s].rt : s \in 1..Len(task.strats)}
-    IN  CHOOSE m \in R : \A x \in R : x <= m
+    IF task.ran.s = 0
+    THEN LET R == {task.strats[s].rt : s \in 1..Len(task.strats)}
+         IN  CHOOSE m \in R : \A x \in R : x <= m
+    ELSE task.strats[task.ran.s].rt - task.ran.done
 
 Key(k, I, t) ==
     LET tk == I.tasks[t]
@@ -182,18 +218,21 @@ Run(quirk, I, ord, i, vav, acc) ==
                       [vav EXCEPT ![c[2]] = IF quirk THEN AllocAny(@, st) ELSE AllocWith(@, st[c[1]].dem)],
                       [acc EXCEPT ![t] = Placed(c[2], c[1])])
 
-InitialAv(I)   == Tup([p \in PoolIds(I) |-> I.pools[p].av])
+\* what the live pools have free / what the policy's virtual cluster starts with:
+\* copy(worker_pools) keeps the allocations, deepcopy (preemptive) undoes them all
+LiveAv(I)      == Tup([p \in PoolIds(I) |-> I.pools[p].av])
+StartAv(I)     == IF I.preemptive THEN Tup([p \in PoolIds(I) |-> I.pools[p].cap]) ELSE LiveAv(I)
 NonePlaced(I)  == Tup([t \in TaskIds(I) |-> Unplaced])
 
 \* the intended algorithm: the reported strategy is what is virtually allocated
 Plan(k, I) ==
     LET ord == Order(k, I)
-    IN  [order |-> ord, place |-> Run(FALSE, I, ord, 1, InitialAv(I), NonePlaced(I))]
+    IN  [order |-> ord, place |-> Run(FALSE, I, ord, 1, StartAv(I), NonePlaced(I))]
 
 \* the algorithm as written: LSF allocates with place_task(task) (no strategy)
 CodedPlan(k, I) ==
     LET ord == Order(k, I)
-    IN  [order |-> ord, place |-> Run(k = "LSF", I, ord, 1, InitialAv(I), NonePlaced(I))]
+    IN  [order |-> ord, place |-> Run(k = "LSF", I, ord, 1, StartAv(I), NonePlaced(I))]
 
 -----------------------------------------------------------------------------
 (* the property, evaluated on an answer without the virtual cluster *)
@@ -219,7 +258,7 @@ Packs(pav, S, d) ==
 Feasible(I, a) ==
     \A p \in PoolIds(I) :
         LET S == OnPool(a, TaskIds(I), p)
-        IN  Packs(I.pools[p].av, S, [u \in S |-> Dem(I, u, a.place[u].strat)])
+        IN  Packs(StartAv(I)[p], S, [u \in S |-> Dem(I, u, a.place[u].strat)])
 
 \* A task is left unplaced only if none of its strategies fits any pool once
 \* the placed tasks of higher or equal priority are accounted for.
@@ -229,7 +268,7 @@ InvertedK(K, I, a, t) ==
        IN  \E p \in PoolIds(I) :
               LET S == OnPool(a, hi, p) \cup {t}
               IN  \E s \in 1..Len(I.tasks[t].strats) :
-                     Packs(I.pools[p].av, S,
+                     Packs(StartAv(I)[p], S,
                            [u \in S |-> IF u = t THEN Dem(I, t, s) ELSE Dem(I, u, a.place[u].strat)])
 
 Inverted(k, I, a, t) == InvertedK(Prios(k, I), I, a, t)
@@ -246,28 +285,44 @@ SameAsPlan(k, I, a) == LET P == Plan(k, I) IN a.place = P.place /\ a.order = P.o
 
 -----------------------------------------------------------------------------
 (* the bound *)
-GraphGrouped(gs) ==
-    \A i, j, k \in 1..Len(gs) : (i < j /\ j < k /\ gs[i] = gs[k]) => gs[j] = gs[i]
+\* offer order: the tasks of one graph together, then the running ones in pool
+\* order; the bound has at most one running task per instance
+OfferOK(gs, ons) ==
+    /\ \A i, j, k \in 1..Len(gs) :
+          (i < j /\ j < k /\ gs[i] = gs[k] /\ ons[i] = 0 /\ ons[j] = 0 /\ ons[k] = 0) => gs[j] = gs[i]
+    /\ RunningLast(ons)
+    /\ Cardinality({i \in 1..Len(ons) : ons[i] > 0}) <= 1
 
 ShapeSet == {TheShapes[i] : i \in 1..Len(TheShapes)}
-PoolSeqSet == {ThePoolSeqs[i] : i \in 1..Len(ThePoolSeqs)}
+
+\* the pools of an instance with tasks ts: in a preemptive bound the running tasks
+\* are the only occupants
+PoolsFor(ts, p) ==
+    IF ~Preemptive THEN ThePoolSeqs[p]
+    ELSE LET ps == ThePoolSeqs[p]
+         IN  Tup([q \in 1..Len(ps) |->
+                    [cap |-> ps[q].cap,
+                     av  |-> <<VSub(ps[q].cap[1], RunningDem(ts, q, Len(ps[q].cap[1])))>>]])
 
 \* Instances = {I : InBound(I)}
 InBound(I) ==
-    /\ I.now = Now
+    /\ I.now = Now /\ I.preemptive = Preemptive
     /\ Len(I.tasks) \in 1..MaxTasks
     /\ \A t \in 1..Len(I.tasks) : I.tasks[t] \in ShapeSet
-    /\ GraphGrouped([t \in 1..Len(I.tasks) |-> I.tasks[t].graph])
-    /\ I.pools \in PoolSeqSet
+    /\ OfferOK([t \in 1..Len(I.tasks) |-> I.tasks[t].graph], [t \in 1..Len(I.tasks) |-> I.tasks[t].ran.on])
+    /\ \E p \in 1..Len(ThePoolSeqs) : I.pools = PoolsFor(I.tasks, p)
 
 InstanceOf(s, p) ==
-    [now |-> Now, tasks |-> Tup([t \in 1..Len(s) |-> TheShapes[s[t]]]), pools |-> ThePoolSeqs[p]]
+    LET ts == Tup([t \in 1..Len(s) |-> TheShapes[s[t]]])
+    IN  [now |-> Now, preemptive |-> Preemptive, tasks |-> ts, pools |-> PoolsFor(ts, p)]
 
 \* the small constants describe the big ones, and codes are injective
 BoundOK ==
     /\ NShapes = Len(TheShapes) /\ NPools = Len(ThePoolSeqs) /\ NRecords = Len(TheRecords)
     /\ GraphOf = Tup([i \in 1..NShapes |-> TheShapes[i].graph])
-    /\ Cardinality(ShapeSet) = NShapes /\ Cardinality(PoolSeqSet) = NPools
+    /\ OnOf = Tup([i \in 1..NShapes |-> TheShapes[i].ran.on])
+    /\ Cardinality(ShapeSet) = NShapes
+    /\ Cardinality({ThePoolSeqs[i] : i \in 1..Len(ThePoolSeqs)}) = NPools
     /\ FirstIx \subseteq 1..NShapes
 
 -----------------------------------------------------------------------------
@@ -290,7 +345,7 @@ Stats(k, I, a) ==
         /\ Bump(7, \E t \in T : a.place[t].placed /\ a.place[t].pool > 1)
         /\ Bump(8, \A t \in T : a.place[t].placed)
         \* an unplaced task that would fit the cluster as it is before the call
-        /\ Bump(9, \E t \in T : ~a.place[t].placed /\ Choice(InitialAv(I), I.tasks[t].strats) # <<0, 0>>)
+        /\ Bump(9, \E t \in T : ~a.place[t].placed /\ Choice(StartAv(I), I.tasks[t].strats) # <<0, 0>>)
 
 StatsLine == PrintT("@@stats " \o ToString([r \in 1..(NStats + 1) |-> TLCGet(r)]))
 
@@ -303,7 +358,7 @@ EnumInit ==
     /\ kind \in Kinds
     /\ sel \in UNION {[1..n -> 1..NShapes] : n \in 1..MaxTasks}
     /\ sel[1] \in FirstIx
-    /\ GraphGrouped([t \in 1..Len(sel) |-> GraphOf[sel[t]]])
+    /\ OfferOK([t \in 1..Len(sel) |-> GraphOf[sel[t]]], [t \in 1..Len(sel) |-> OnOf[sel[t]]])
     /\ pix \in 1..NPools
 
 NoNext == idx < 0 /\ UNCHANGED vars
@@ -340,9 +395,10 @@ Clauses == {"harness.wf", "harness.bound", "harness.build", "C13.no_inversion", 
 
 Holds(c, r) ==
     LET k == r.kind  I == r.inst  a == r.ans
-    IN  CASE c = "harness.wf"    -> WellFormedInst(I) /\ WellFormedAns(I, a) /\ k \in {"EDF", "FIFO", "LSF"}
+    IN  CASE c = "harness.wf"    -> /\ WellFormedInst(I) /\ WellFormedAns(I, a) /\ k \in {"EDF", "FIFO", "LSF"}
+                                    /\ (I.preemptive => k # "FIFO")      \* FIFOScheduler asserts it
           [] c = "harness.bound" -> r.bound => (InBound(I) /\ k \in Kinds)
-          [] c = "harness.build" -> r.before = InitialAv(I)
+          [] c = "harness.build" -> r.before = LiveAv(I) /\ r.remaining = Tup([t \in TaskIds(I) |-> Remaining(I.tasks[t])])
           [] c = "C13.no_inversion" -> NoInversion(k, I, a)
           [] c = "C13.plan_eq"   -> SameAsPlan(k, I, a)
           [] c = "C13.order_key" -> OrderKey(k, I, a)
